@@ -78,6 +78,7 @@ func planRangeFunc(p *Prog) roundPlan {
 	planCondFuncValue(p, in, &plan)
 	planSelectDistribute(p, in, &plan)
 	planLocalSelectDistribute(p, in, &plan)
+	planFlagAccumulate(p, in, &plan)
 	planDeferExplicit(p, in, &plan)
 	planSortInterface(p, in, &plan)
 	return plan
